@@ -22,7 +22,7 @@ PROP = {
                   "orthographic) exactly and map 18 probe points to ndc_x = x/(aspect tan(fov/2) d), ndc_y = y/(tan(fov/2) d) and the unique depth A + B/d through the documented "
                   "end points ([0,1], [-1,1] for _gl, near->1 / infinity->0 for reverse, far at infinity for infinite), within 16u * sum|terms|. project_point3 / transform_point3 / "
                   "transform_vector3 and their Vec3A forms are compared with the f64 product M(p,1) / M(p,0) (divided by w for project). Failures shrink to a minimal input saved as a "
-                  "replay file. Exploration, not proof.",
+                  "replay file. The same sub-checks also run against the SSE2 build with glam-assert compiled in: the generated inputs satisfy the documented preconditions, so a panic there is a failure. Exploration, not proof.",
     "level_note": "Trusted: f64 arithmetic and std sin_cos as the reference for f32 types, the double-double arithmetic of vcore (with a Taylor sin/cos) for f64 types, proptest, the harness. "
                   "NEON/wasm32 backends cannot be built here.",
     "design_ref": "DESIGN.md section 5 C11",
